@@ -1092,6 +1092,7 @@ theorem c19k_merge_generic {kl : KeyLevel} {l : Level} (hl : c04k_LevelOf kl l) 
     ∃ r x, c19k_mergeCt kl l scheme lam key even odd = .ok r ∧ c19k_CtOK l r ∧ r.ntt = false ∧ r.cf = even.cf ∧
       (∃ odd1, ctTranslateBalanced l even (c19k_shiftCt l odd (l.n / 2^(lam+1))) true = .ok odd1 ∧
         x = if scheme = .bfv then odd1 else c19k_toNtt l odd1) ∧
+      c19k_CtOK l x ∧ x.ntt = (if scheme = .bfv then false else true) ∧
       ∀ j, j < l.size → ∀ c, c < 2^l.k →
         (c19k_phase kl j r s).getD c 0 ≡
           (packMerge l.k lam (c19k_phase kl j even s) (c19k_phase kl j odd s)).getD c 0 + (ν x).getD c 0
@@ -1125,7 +1126,7 @@ theorem c19k_merge_generic {kl : KeyLevel} {l : Level} (hl : c04k_LevelOf kl l) 
   obtain ⟨r, h3, h3ok, h3n, h3f, h3ph⟩ :=
     c19k_translate_phase hl hkl hd h2ok hyok (by rw [h2n, hen, hyn]) (by rw [h2f, hyf]) false s
   simp only [Bool.false_eq_true, if_false] at h3ph
-  refine ⟨r, x, ?_, h3ok, by rw [h3n, h2n, hen], by rw [h3f, h2f], ⟨odd1, h1, hx⟩, fun j hj c hc => ?_⟩
+  refine ⟨r, x, ?_, h3ok, by rw [h3n, h2n, hen], by rw [h3f, h2f], ⟨odd1, h1, hx⟩, hxok, hxn, fun j hj c hc => ?_⟩
   · unfold c19k_mergeCt
     simp only [← htemp, h1, h2, bind, Except.bind, ← hx, ht, ← hy]
     exact h3
@@ -1217,6 +1218,154 @@ theorem c19k_tree_generic {kl : KeyLevel} {l : Level} {s : Nat → Int} (f : Nat
       show _ ≡ (packMerge l.k lam _ _).getD c 0 + (addPoly (2^l.k) (packMerge l.k lam _ _) _).getD c 0 [ZMOD _]
       rw [hν]
       exact this c hc
+
+
+/-- the exact tree at the coefficients later layers read: slot o after lam layers holds at coefficient (N/2^lam)·u the constant
+    coefficient of leaf o + brev lam u, times 2^lam (`c19_packLayers_inv` for the recursion) -/
+theorem c19k_nodePoly_inv {R : Type} [CommRing R] (k : Nat) (leaf : Nat → Array R) (lam : Nat) (hlam : lam ≤ k)
+    (o u : Nat) (hu : u < 2^lam) :
+    (c19k_nodePoly k leaf lam o).getD (2^(k-lam) * u) 0 = (2:R)^lam * ((leaf (o + brev lam u)).getD 0 0) := by
+  induction lam generalizing o u with
+  | zero =>
+    have : u = 0 := by simpa using hu
+    subst this
+    simp [c19k_nodePoly, brev]
+  | succ lam ih =>
+    have hkk : 2^(k-lam) = 2^(k-(lam+1)) * 2 := by
+      rw [← pow_succ]; congr 1; omega
+    show (packMerge k lam _ _).getD _ 0 = _
+    rw [c19_packMerge_at_mult k lam (by omega) _ _ u hu]
+    by_cases hev : u % 2 = 0
+    · obtain ⟨u', rfl⟩ : ∃ u', u = 2 * u' := ⟨u / 2, by omega⟩
+      have hu' : u' < 2^lam := by rw [pow_succ] at hu; omega
+      have e1 : 2^(k-(lam+1)) * (2 * u') = 2^(k-lam) * u' := by rw [hkk]; ring
+      rw [if_pos hev, e1, ih (by omega) o u' hu', brev_two_mul, pow_succ]; ring
+    · obtain ⟨u', rfl⟩ : ∃ u', u = 2 * u' + 1 := ⟨u / 2, by omega⟩
+      have hu' : u' < 2^lam := by rw [pow_succ] at hu; omega
+      have e1 : 2^(k-(lam+1)) * (2 * u' + 1 - 1) = 2^(k-lam) * u' := by
+        rw [hkk, Nat.add_sub_cancel]; ring
+      rw [if_neg hev, e1, ih (by omega) (o + 2^lam) u' hu', brev_two_mul_add_one, pow_succ]
+      have e2 : o + 2^lam + brev lam u' = o + (2^lam + brev lam u') := by ring
+      rw [e2]; ring
+
+/-- coefficients of the packed phase: tree + final trace, with the tree noise Z and the trace noise N -/
+theorem c19k_pack_coeffs (k L : Nat) (hL : L ≤ k) (q : Int) (res X Z N : Array Int) (leaf : Nat → Array Int)
+    (hX : ∀ c, c < 2^k → X.getD c 0 ≡ (c19k_nodePoly k leaf L 0).getD c 0 + Z.getD c 0 [ZMOD q])
+    (hres : ∀ c, c < 2^k → res.getD c 0 ≡ (fieldTracePoly k L X).getD c 0 + N.getD c 0 [ZMOD q]) :
+    (∀ u, u < 2^L → res.getD (2^(k-L) * u) 0 ≡
+      (2:Int)^k * (leaf (brev L u)).getD 0 0 + ((2:Int)^(k-L) * Z.getD (2^(k-L) * u) 0 + N.getD (2^(k-L) * u) 0) [ZMOD q]) ∧
+    (∀ c, c < 2^k → ¬ 2^(k-L) ∣ c → res.getD c 0 ≡ N.getD c 0 [ZMOD q]) := by
+  have hkk : k - (k - L) = L := by omega
+  constructor
+  · intro u hu
+    have hlt : 2^(k-L) * u < 2^k := by
+      rw [← c19_pow_split k L hL]; exact Nat.mul_lt_mul_of_pos_left hu (Nat.two_pow_pos _)
+    have h1 := hres _ hlt
+    rw [c19_fieldTrace_eq, c19_traceSteps_coeff k (k - L) (Nat.sub_le _ _) X _ hlt, if_pos ⟨u, rfl⟩] at h1
+    have h2 := hX _ hlt
+    rw [c19k_nodePoly_inv k leaf L hL 0 u hu, Nat.zero_add] at h2
+    have h3 := (h2.mul_left ((2:Int)^(k-L))).add (Int.ModEq.refl (n := q) (N.getD (2^(k-L) * u) 0))
+    refine h1.trans ?_
+    have hp : (2:Int)^(k-L) * (2:Int)^L = (2:Int)^k := by rw [← pow_add]; congr 1; omega
+    unfold Int.ModEq at h3 ⊢
+    rw [h3, ← hp]; congr 1; ring
+  · intro c hc hnd
+    have h1 := hres c hc
+    rw [c19_fieldTrace_eq, c19_traceSteps_coeff k (k - L) (Nat.sub_le _ _) X c hc, if_neg hnd, zero_add] at h1
+    exact h1
+
+/-- total bound: P·|2^(k−L)·Z + N| ≤ (2^k − 1)·D from P·|Z| ≤ (2^L − 1)·D and P·|N| ≤ (2^(k−L) − 1)·D -/
+theorem c19k_pack_total_bound (k L : Nat) (hL : L ≤ k) (z n : Int) (P D : Nat)
+    (hz : z.natAbs * P ≤ (2^L - 1) * D) (hn : n.natAbs * P ≤ (2^(k-L) - 1) * D) :
+    ((2:Int)^(k-L) * z + n).natAbs * P ≤ (2^k - 1) * D := by
+  have habs : ((2:Int)^(k-L) * z + n).natAbs ≤ 2^(k-L) * z.natAbs + n.natAbs := by
+    refine (Int.natAbs_add_le _ _).trans ?_
+    rw [Int.natAbs_mul, Int.natAbs_pow]; rfl
+  obtain ⟨a, ha⟩ : ∃ a, 2^L = a + 1 := ⟨2^L - 1, by have := Nat.two_pow_pos L; omega⟩
+  obtain ⟨b, hb⟩ : ∃ b, 2^(k-L) = b + 1 := ⟨2^(k-L) - 1, by have := Nat.two_pow_pos (k-L); omega⟩
+  have hk : 2^k = (b + 1) * (a + 1) := by rw [← ha, ← hb, c19_pow_split k L hL]
+  have e1 : 2^L - 1 = a := by omega
+  have e2 : 2^(k-L) - 1 = b := by omega
+  have e3 : 2^k - 1 = (b + 1) * a + b := by rw [hk]; ring_nf; omega
+  rw [e1] at hz; rw [e2] at hn; rw [e3]
+  calc _ ≤ (2^(k-L) * z.natAbs + n.natAbs) * P := Nat.mul_le_mul_right _ habs
+    _ = (b + 1) * (z.natAbs * P) + n.natAbs * P := by rw [hb]; ring
+    _ ≤ (b + 1) * (a * D) + b * D := Nat.add_le_add (Nat.mul_le_mul_left _ hz) hn
+    _ = ((b + 1) * a + b) * D := by ring
+
+
+/-! ## L2 on the model: the concrete butterfly and `pack_lwe_ciphertexts` (rounding branch) -/
+
+/-- the butterfly of layer `lam` with the key looked up (a missing key is refused) -/
+def c19k_packMergeStep (kl : KeyLevel) (l : Level) (scheme : Scheme) (keys : Nat → Option KSKey) : Nat → Ct → Ct → R Ct :=
+  fun lam ev od => match keys (2^(lam+1) + 1) with
+    | none => .error .refused
+    | some key => c19k_mergeCt kl l scheme lam key ev od
+
+/-- the ciphertext `apply_galois_inplace` is applied to inside the butterfly: `even − X^shift·odd` (in NTT form unless BFV) -/
+def c19k_galoisInput (l : Level) (scheme : Scheme) (lam : Nat) (ev od : Ct) : Ct :=
+  match ctTranslateBalanced l ev (c19k_shiftCt l od (l.n / 2^(lam+1))) true with
+  | .ok odd1 => if scheme = .bfv then odd1 else c19k_toNtt l odd1
+  | .error _ => default
+
+/-- the switch-key noise of the butterfly (rounding branch) -/
+def c19k_mergeNuStd (kl : KeyLevel) (l : Level) (scheme : Scheme) (keys : Nat → Option KSKey) (e : Nat → Nat → Nat → Int)
+    (s : Nat → Int) (lam : Nat) (ev od : Ct) : Array Int :=
+  match keys (2^(lam+1) + 1) with
+  | some key => c19k_nuStdArr kl l (c19k_galoisInput l scheme lam ev od) (2^(lam+1) + 1) key (e lam) s
+  | none => #[]
+
+/-- `pack_lwe_ciphertexts` after the leaves are prepared (`leaves o` = `rlwes[o]`: `assemble_lwe` of input `reverse_bits(o, L)` divided
+    by N, or the zero ciphertext), L = ⌈log2 count⌉: the merge tree, [to NTT unless BFV], `field_trace_inplace(ret, keys, L)`. -/
+def c19k_packCt (kl : KeyLevel) (l : Level) (scheme : Scheme) (keys : Nat → Option KSKey) (leaves : Nat → R Ct) (L : Nat) : R Ct := do
+  let merged ← c19k_nodeCt (c19k_packMergeStep kl l scheme keys) leaves L 0
+  let ret := if scheme = .bfv then merged else c19k_toNtt l merged
+  c19k_fieldTraceCt kl l scheme keys L ret
+
+theorem c19k_stdMode_of {scheme : Scheme} (hs : scheme = .bfv ∨ scheme = .ckks) {b : Bool}
+    (hb : b = if scheme = .bfv then false else true) : c04t_StdMode scheme b := by
+  rcases hs with rfl | rfl
+  · left; exact ⟨rfl, by simpa using hb⟩
+  · right; exact ⟨rfl, by simpa using hb⟩
+
+/-- the concrete butterfly, rounding branch: phase ≡ packMerge(phases) + ν, with the switch-key bound -/
+theorem c19k_merge_std {kl : KeyLevel} {l : Level} (hl : c04k_LevelOf kl l) {scheme : Scheme}
+    (hT : scheme ≠ .bfv → c19k_TablesOf kl l) (hscheme : scheme = .bfv ∨ scheme = .ckks)
+    {keys : Nat → Option KSKey} {lam : Nat} (hlam : lam + 1 ≤ l.k) {key : KSKey} (hkey : keys (2^(lam+1) + 1) = some key)
+    (hK : c19k_KeyOK kl l.size key) {s : Nat → Int} {e : Nat → Nat → Nat → Int} {G : Nat → Int}
+    (hke : c04k_KeyEq kl l.size key s (c04k_sigma kl.n (2^(lam+1) + 1) s) (e lam) G)
+    {A Be : Nat} (hA : ∀ i, i < l.size → (kl.m i).value ≤ A)
+    (he : ∀ d, d < l.size → ∀ p, p < kl.n → (e lam d p).natAbs ≤ Be)
+    {f : Nat} {ev od : Ct} (hev : c19k_CoefOK l f ev) (hod : c19k_CoefOK l f od) :
+    ∃ r, c19k_packMergeStep kl l scheme keys lam ev od = .ok r ∧ c19k_CoefOK l f r ∧
+      (∀ j, j < l.size → ∀ c, c < 2^l.k →
+        (c19k_phase kl j r s).getD c 0 ≡
+          (packMerge l.k lam (c19k_phase kl j ev s) (c19k_phase kl j od s)).getD c 0
+            + (c19k_mergeNuStd kl l scheme keys e s lam ev od).getD c 0 [ZMOD ((kl.m j).value : Int)]) ∧
+      ∀ c, c < 2^l.k → ((c19k_mergeNuStd kl l scheme keys e s lam ev od).getD c 0).natAbs * kl.c04t_P
+        ≤ c19k_boundStd kl l.size A Be s := by
+  have hg := c19k_odd_two_pow (lam+1) (by omega)
+  have hg2 : 2^(lam+1) + 1 ≤ 2 * l.n := by
+    rw [hl.n, ← hl.k]
+    have h1 : 2^(lam+1) ≤ 2^l.k := Nat.pow_le_pow_right (by norm_num) hlam
+    have h2 := Nat.two_pow_pos l.k
+    omega
+  obtain ⟨r, x, h1, h2, h3, h4, ⟨odd1, h5, h6⟩, hxok, hxn, h7⟩ :=
+    c19k_merge_generic hl hK.hkl hK.hd hT (key := key) hev.1 hod.1 hev.2.1 hod.2.1 (by rw [hev.2.2, hod.2.2]) lam s
+      (fun x => c19k_nuStdArr kl l x (2^(lam+1) + 1) key (e lam) s)
+      (fun x hx hxn => c19k_galois_of hl hg
+        (applyGalois_phase_sigma hl (c19k_ksInput hl hK hx) (c19k_stdMode_of hscheme hxn) hx.1 hg hg2 hK.hkcc hke
+          (fun p _ => rfl)))
+  have hgi : c19k_galoisInput l scheme lam ev od = x := by unfold c19k_galoisInput; rw [h5, h6]
+  have hnu : c19k_mergeNuStd kl l scheme keys e s lam ev od = c19k_nuStdArr kl l x (2^(lam+1) + 1) key (e lam) s := by
+    unfold c19k_mergeNuStd; rw [hkey, hgi]
+  refine ⟨r, by unfold c19k_packMergeStep; rw [hkey]; exact h1, ⟨h2, h3, by rw [h4, hev.2.2]⟩, ?_, fun c hc => ?_⟩
+  · rw [hnu]; exact h7
+  · rw [hnu]
+    have hc' : c < kl.n := by rw [← hl.k]; exact hc
+    unfold c19k_nuStdArr
+    rw [c19_getD_ofFn _ _ _ hc']
+    exact switchKey_noise_bound (c04k_galois_input hl (c19k_ksInput hl hK hxok) hK.hkcc hg) hke hA he c hc'
 
 
 /-! ## non-vacuity: a genuine Galois key for g = 3 on the key level `c04t_exKL` (N = 2, q = 13, P = 17, t = 5)
